@@ -5,6 +5,9 @@ R26a For every MessageBase subclass defined in the three protocol namespaces (me
      pydantic model / enum it mentions) contains no JSON-lossy type: a dict whose key type is not
      str (JSON object keys are strings: int/float keys come back as str), bytes, Decimal, complex,
      bare Any/object/Callable, or a non-pydantic, non-enum repo class.
+R26c no model in the field closure of a protocol message customises its own serialisation or validation (no @model_serializer /
+     @field_serializer / validators / computed fields / Annotated serialisers, no override of model_dump / model_validate /
+     __init__): with plain pydantic models the JSON form is determined by the field types R26a examines.
 R26b envelope: serialize() writes `_type` (= type(msg).__qualname__) and `_ns` (= msg.__module__);
      deserialize()'s body is one try whose handler raises ProtocolDeserializationException; the
      namespace is selected from the fixed list of exactly the three protocol modules and unknown
@@ -117,6 +120,40 @@ def run(ctx) -> None:
     if len(msgs) < 20 or checked_fields < 80:
         raise AnchorError(f"only {len(msgs)} message classes / {checked_fields} fields found (floors 20 / 80)")
 
+    # ---- R26c: no model in the closure customises its own (de)serialisation
+    ctx.rule("R26c", "no protocol model customises how it is dumped or validated")
+    HOOKS = ("model_serializer", "field_serializer", "model_validator", "field_validator", "validator", "root_validator",
+             "computed_field", "PlainSerializer", "WrapSerializer", "BeforeValidator", "AfterValidator", "WrapValidator", "PlainValidator")
+    OVERRIDES = ("model_dump", "model_dump_json", "dict", "json", "model_validate", "model_post_init", "__get_pydantic_core_schema__",
+                 "__init__")
+    n_models = 0
+    for q in sorted(seen_models | {c.qualname for c in msgs}):
+        k = prog.cls(q)
+        if k is None or k.module.is_test:
+            continue
+        n_models += 1
+        bad = []
+        for mname, m_ in k.methods.items():
+            decos = [d.split("(")[0].split(".")[-1] for d in m_.decorators]
+            if any(d in HOOKS for d in decos):
+                bad.append((m_, f"@{[d for d in decos if d in HOOKS][0]} {mname}"))
+            elif mname in OVERRIDES:
+                bad.append((m_, f"override of {mname}"))
+        for name, ann in k.class_attr_ann.items():
+            txt = norm(ann)
+            if any(h + "(" in txt for h in HOOKS):
+                bad.append((None, f"field {name}: {txt[:60]}"))
+        inst = f"{k.name}: plain pydantic dump / validate"
+        if not bad:
+            ctx.ok("R26c", inst, trivial=True)
+        else:
+            m_, what = bad[0]
+            ctx.fail("R26c", m_, (m_.node if m_ is not None else k.node), inst, f"{what}: a hook that rewrites the dumped or the validated form of a "
+                     "protocol model makes the JSON form depend on code, not on the field types - values the hook drops or maps "
+                     "(False, 0, '', an empty list) do not come back as sent", function=(None if m_ is not None else k.qualname),
+                     file=(None if m_ is not None else k.module.relpath))
+    if n_models < 20:
+        raise AnchorError(f"R26c examined only {n_models} models")
     # ---- R26b
     ser = prog.func("openpectus.protocol.serialization:serialize")
     des = prog.func("openpectus.protocol.serialization:deserialize")
